@@ -222,3 +222,21 @@ def dict_oracle(seq, replies):
         except ValueError:
             return (i, 'reply', 'unparsable reply %r to %s' % (rep[:60], tok))
     return None
+
+
+def run_capped(H, ls, max_crashes=3, what='the harness'):
+    """like lib.run_harness_resilient, but gives up after a few crashes / hangs (the harnesses kill themselves with
+    SIGALRM when one request takes more than ~10 s, e.g. a probe loop over a full table); the rest is 'SKIP'"""
+    replies, start, crashes = [], 0, 0
+    while start < len(ls):
+        rc, res, err = H.run(ls[start:], timeout=600)
+        replies.extend(res[:len(ls) - start])
+        done = start + len(res)
+        if done >= len(ls): break
+        if rc in (-14, 142): why = 'no reply within the time limit (SIGALRM): a loop does not terminate'
+        else: why = ' '.join(err.strip().split('\n')[:12])[:1500]
+        replies.append('CRASH ' + why)
+        start = done + 1; crashes += 1
+        if crashes >= max_crashes:
+            replies.extend(['SKIP'] * (len(ls) - len(replies))); break
+    return replies[:len(ls)]
